@@ -35,6 +35,7 @@
 #include <opm/common/OpmLog/OpmLog.hpp>
 
 #include <algorithm>
+#include <array>
 #include <cmath>
 #include <filesystem>
 #include <functional>
@@ -105,16 +106,20 @@ const std::vector<std::pair<std::string, rt>> kRates = {
 
 struct GroupSpec {
     std::string name;
-    int parent;                      // index into groups, -1 = FIELD
-    int depth;                       // 1 = child of FIELD
+    int parent;                      // index into groups, -1 = FIELD (sim step 0; later steps: parentAt)
+    int depth;                       // 1 = child of FIELD (sim step 0)
     std::vector<double> gefac;       // per sim step
-    std::vector<int> kids;
-    std::vector<int> wells;
+    std::vector<int> kids;           // sim step 0
+    std::vector<int> wells;          // wells whose first WELSPECS names this group
+    std::vector<int> parentAt;       // per sim step: GRUPTREE at a later report step re-parents existing groups
+    bool nodeGroup = false;          // may hold child groups (never wells); the others hold wells (never groups)
 };
 
 struct WellSpec {
     std::string name;
-    int group;
+    int group;                       // group of the first WELSPECS (later steps: groupAt)
+    std::vector<int> groupAt;        // per sim step: a later WELSPECS moves the well to another group
+    std::vector<int> k2At;           // per sim step: last connected layer (a later COMPDAT adds layers); k2 = the final one
     int i, j;
     bool producer;
     std::string injType;             // WATER / GAS / OIL
@@ -137,7 +142,25 @@ struct Case {
     std::vector<double> tstep;       // deck time units per report step
     int year, month, day;            // START
     std::string deck;
+    std::map<std::string, long> hist;   // what changes between report steps (generator statistics)
+    std::vector<int> quietRegroup;      // sim steps whose only tree change is a GRUPTREE re-parenting (no WELSPECS at all)
+    std::vector<int> quietMove;         // sim steps whose only tree change is a WELSPECS moving existing wells
 };
+
+// the group tree of one sim step, from the generated specification (independent of the Schedule)
+struct Tree {
+    std::vector<int> parent;                 // -1 = FIELD
+    std::vector<std::vector<int>> kids, wells;
+};
+Tree treeAt(const Case& c, int s) {
+    Tree t;
+    const size_t ng = c.groups.size();
+    t.parent.resize(ng); t.kids.resize(ng); t.wells.resize(ng);
+    for (size_t g = 0; g < ng; ++g) t.parent[g] = c.groups[g].parentAt[s];
+    for (size_t g = 0; g < ng; ++g) if (t.parent[g] >= 0) t.kids[t.parent[g]].push_back(static_cast<int>(g));
+    for (size_t w = 0; w < c.wells.size(); ++w) if (c.wells[w].firstStep <= s) t.wells[c.wells[w].groupAt[s]].push_back(static_cast<int>(w));
+    return t;
+}
 
 std::string num(double v) {
     char b[64];
@@ -170,7 +193,7 @@ Case makeCase(vh::Rng& rng, const std::vector<std::string>& keys, bool thorough,
     Case c;
     static const std::vector<std::string> us = {"METRIC", "FIELD", "LAB", "PVT-M"};
     c.units = rng.pick(us);
-    c.nsteps = rng.range(1, thorough ? 6 : 4);
+    c.nsteps = rng.coin(1, 6) ? 1 : rng.range(2, thorough ? 6 : 4);     // mostly histories of several report steps
     c.year = rng.range(1990, 2030); c.month = rng.range(1, 12); c.day = rng.range(1, 28);
     for (int s = 0; s < c.nsteps; ++s) {
         // mostly whole days so that calendar vectors are crisp; sometimes fractional
@@ -201,30 +224,114 @@ Case makeCase(vh::Rng& rng, const std::vector<std::string>& keys, bool thorough,
     }
     for (int g = 0; g < ng; ++g)
         if (c.groups[g].parent >= 0) c.groups[c.groups[g].parent].kids.push_back(g);
+    // groups that hold groups vs groups that hold wells (the Schedule refuses to mix them): the inner groups of
+    // the initial tree and some childless "empty platforms" may receive groups later, the others hold the wells
+    {
+        int wellGroups = 0;
+        for (int g = 0; g < ng; ++g) { c.groups[g].nodeGroup = !c.groups[g].kids.empty(); if (!c.groups[g].nodeGroup) ++wellGroups; }
+        for (int g = 0; g < ng; ++g)
+            if (!c.groups[g].nodeGroup && wellGroups > 1 && rng.coin(1, 4)) { c.groups[g].nodeGroup = true; --wellGroups; }
+    }
     std::vector<int> leaves;
-    for (int g = 0; g < ng; ++g) if (c.groups[g].kids.empty()) leaves.push_back(g);
+    for (int g = 0; g < ng; ++g) if (!c.groups[g].nodeGroup) leaves.push_back(g);
+
+    // --- the group tree changes between report steps: GRUPTREE at a later step moves an EXISTING group (with
+    //     everything below it) under another EXISTING group or FIELD.  Every later step has one kind of structural
+    //     change: R = GRUPTREE re-parenting only ("quiet": no WELSPECS, no new group — nothing but the GRUPTREE record
+    //     itself announces the change), M = only WELSPECS records that move existing wells to another group,
+    //     N = only new wells, X = any mixture.
+    std::vector<int> par(ng);
+    for (int g = 0; g < ng; ++g) { par[g] = c.groups[g].parent; c.groups[g].parentAt.assign(c.nsteps, par[g]); }
+    std::vector<char> quiet(c.nsteps, 0);
+    std::set<int> everMoved;
+    auto depthOf = [&](int g) { int d = 0; for (int p = g; p >= 0; p = par[p]) ++d; return d; };
+    auto below = [&](int anc, int g) { for (int p = g; p >= 0; p = par[p]) if (p == anc) return true; return false; };
+    auto heightOf = [&](int g) { int h = 1; for (int x = 0; x < ng; ++x) if (below(g, x)) h = std::max(h, depthOf(x) - depthOf(g) + 1); return h; };
+    std::vector<char> kind(c.nsteps, 'X');
+    for (int s = 1; s < c.nsteps; ++s) kind[s] = "RMNX"[rng.below(4)];
+    for (int s = 1; s < c.nsteps; ++s) {
+        if (kind[s] != 'R' && !(kind[s] == 'X' && rng.coin(2, 3))) continue;
+        const int nmoves = rng.coin(1, 4) ? 2 : 1;
+        bool any = false;
+        for (int mv = 0; mv < nmoves; ++mv) {
+            std::vector<std::pair<int,int>> cand;       // (moved group, new parent)
+            for (int m = 0; m < ng; ++m)
+                for (int p = -1; p < ng; ++p) {
+                    if (p == par[m] || p == m) continue;
+                    if (p >= 0 && (!c.groups[p].nodeGroup || below(m, p))) continue;
+                    if ((p >= 0 ? depthOf(p) : 0) + heightOf(m) > 4) continue;
+                    cand.push_back({m, p});
+                }
+            if (cand.empty()) break;
+            const auto pick = rng.pick(cand);
+            par[pick.first] = pick.second;
+            everMoved.insert(pick.first);
+            any = true;
+            ++c.hist["regroup.moves"];
+            ++c.hist[pick.second < 0 ? "regroup.to_FIELD" : "regroup.under_group"];
+        }
+        if (!any) continue;
+        for (int t = s; t < c.nsteps; ++t) for (int g = 0; g < ng; ++g) c.groups[g].parentAt[t] = par[g];
+        quiet[s] = kind[s] == 'R';
+        ++c.hist[quiet[s] ? "regroup.steps_quiet" : "regroup.steps_with_other_events_allowed"];
+        if (quiet[s]) c.quietRegroup.push_back(s);
+    }
+    // well groups that are, at some step, below a group that gets moved: wells prefer them
+    std::vector<int> movedLeaves;
+    for (int g : leaves)
+        for (int s = 0; s < c.nsteps && (movedLeaves.empty() || movedLeaves.back() != g); ++s)
+            for (int p = g; p >= 0; p = c.groups[p].parentAt[s]) if (everMoved.count(p)) { movedLeaves.push_back(g); break; }
+    std::vector<int> loudSteps;                          // later steps in which a WELSPECS may appear
+    for (int s = 1; s < c.nsteps; ++s) if (kind[s] == 'N' || kind[s] == 'X') loudSteps.push_back(s);
+
     const int nw = rng.range(1, thorough ? 12 : 9);
     std::set<std::pair<int,int>> used;
     for (int w = 0; w < nw; ++w) {
         WellSpec ws;
         ws.name = (rng.coin() ? "P" : "W") + std::to_string(w + 1);
-        ws.group = rng.pick(leaves);
+        ws.group = (!movedLeaves.empty() && rng.coin(1, 2)) ? rng.pick(movedLeaves) : rng.pick(leaves);
         do { ws.i = rng.range(1, 10); ws.j = rng.range(1, 10); } while (!used.insert({ws.i, ws.j}).second);
         ws.producer = rng.coin(2, 3);
         static const std::vector<std::string> it = {"WATER", "GAS", "OIL"};
         ws.injType = rng.pick(it);
-        ws.firstStep = (c.nsteps > 1 && rng.coin(1, 5)) ? rng.range(1, c.nsteps - 1) : 0;
+        ws.firstStep = (!loudSteps.empty() && rng.coin(1, 5)) ? rng.pick(loudSteps) : 0;
+        if (ws.firstStep > 0) ++c.hist["well.introduced_later"];
         if (xk) {
             static const std::vector<std::pair<int,int>> spans = {{1, 1}, {1, 2}, {1, 3}, {2, 3}, {1, 3}};
             const auto sp = rng.pick(spans); ws.k1 = sp.first; ws.k2 = sp.second;
-            if (rng.coin(1, 2)) for (int k = ws.k1; k <= ws.k2; ++k) ws.complOf.push_back(rng.range(1, 2));
             ws.msw = ws.producer && rng.coin(1, 3);
+        }
+        // a later COMPDAT adds layers above the first ones (the well's connection list, its completions and the
+        // regions it is connected in change between evaluations); not for multi-segment wells
+        ws.k2At.assign(c.nsteps, ws.k2);
+        if (xk && !ws.msw && ws.k2 > ws.k1 && ws.firstStep < c.nsteps - 1 && rng.coin(1, 2)) {
+            int k = rng.range(ws.k1, ws.k2 - 1);
+            for (int s = 0; s < c.nsteps; ++s) {
+                if (s > ws.firstStep && k < ws.k2 && rng.coin(1, 2)) { k = rng.range(k + 1, ws.k2); ++c.hist["compdat.layers_added_later"]; }
+                ws.k2At[s] = k;
+            }
+            for (int s = 0; s <= ws.firstStep; ++s) ws.k2At[s] = ws.k2At[ws.firstStep];
+            ws.k2 = ws.k2At.back();
+        }
+        if (xk && rng.coin(1, 2)) for (int k = ws.k1; k <= ws.k2; ++k) ws.complOf.push_back(rng.range(1, 2));
+        // a later WELSPECS moves the well to another well group (never in a quiet step)
+        ws.groupAt.assign(c.nsteps, ws.group);
+        {
+            int g = ws.group;
+            for (int s = 0; s < c.nsteps; ++s) {
+                if (s > ws.firstStep && leaves.size() > 1 && ((kind[s] == 'M' && rng.coin(1, 2)) || (kind[s] == 'X' && rng.coin(1, 6)))) {
+                    int g2; do { g2 = rng.pick(leaves); } while (g2 == g);
+                    g = g2; ++c.hist["well.moved_to_other_group"];
+                    if (kind[s] == 'M') { ++c.hist["well.moved_in_step_with_only_WELSPECS_of_existing_wells"]; c.quietMove.push_back(s); }
+                }
+                ws.groupAt[s] = g;
+            }
         }
         double f = randFac(rng);
         std::string st = "OPEN";
         double o = randRate(rng), wq = randRate(rng), gq = randRate(rng), iq = randRate(rng);
         for (int s = 0; s < c.nsteps; ++s) {
-            if (s > 0 && rng.coin(1, 4)) f = randFac(rng);
+            if (s > 0 && rng.coin(1, 4)) { f = randFac(rng); if (s > ws.firstStep) ++c.hist["wefac.changed_later"]; }
             if (s > 0 && rng.coin(1, 3)) { o = randRate(rng); wq = randRate(rng); gq = randRate(rng); iq = randRate(rng); }
             if (s == 0 || rng.coin(1, 4)) {
                 int r = rng.range(0, 9);
@@ -236,6 +343,7 @@ Case makeCase(vh::Rng& rng, const std::vector<std::string>& keys, bool thorough,
         c.groups[ws.group].wells.push_back(w);
         c.wells.push_back(ws);
     }
+    for (const auto& g : c.groups) for (int s = 1; s < c.nsteps; ++s) if (g.gefac[s] != g.gefac[s-1]) ++c.hist["gefac.changed_later"];
 
     std::ostringstream d;
     d << "RUNSPEC\nTITLE\nC09\nDIMENS\n 10 10 3 /\nOIL\nGAS\nWATER\n" << c.units << "\n"
@@ -291,16 +399,26 @@ Case makeCase(vh::Rng& rng, const std::vector<std::string>& keys, bool thorough,
         d << "/\n";
     }
     for (int s = 0; s < c.nsteps; ++s) {
-        std::ostringstream ws, cd, cl, sg, hist, injh, wef, gef;
+        std::ostringstream ws, cd, cl, sg, hist, injh, wef, gef, gt;
+        // GRUPTREE of a later step: only the groups whose parent changes (both ends exist already)
+        if (s > 0)
+            for (const auto& g : c.groups)
+                if (g.parentAt[s] != g.parentAt[s-1])
+                    gt << " '" << g.name << "' '" << (g.parentAt[s] < 0 ? std::string("FIELD") : c.groups[g.parentAt[s]].name) << "' /\n";
+        if (!gt.str().empty()) d << "GRUPTREE\n" << gt.str() << "/\n";
         for (const auto& w : c.wells) {
             if (w.firstStep > s) continue;
-            if (w.firstStep == s) {
-                ws << " '" << w.name << "' '" << c.groups[w.group].name << "' " << w.i << " " << w.j << " 1* '"
+            if (w.firstStep == s || w.groupAt[s] != w.groupAt[s-1])
+                ws << " '" << w.name << "' '" << c.groups[w.groupAt[s]].name << "' " << w.i << " " << w.j << " 1* '"
                    << (w.producer ? "OIL" : (w.injType == "GAS" ? "GAS" : "WATER")) << "' /\n";
-                cd << " '" << w.name << "' " << w.i << " " << w.j << " " << w.k1 << " " << w.k2 << " 'OPEN' 1* 1* 0.2 /\n";
+            if (w.firstStep == s || w.k2At[s] != w.k2At[s-1]) {
+                const int ka = w.firstStep == s ? w.k1 : w.k2At[s-1] + 1;
+                cd << " '" << w.name << "' " << w.i << " " << w.j << " " << ka << " " << w.k2At[s] << " 'OPEN' 1* 1* 0.2 /\n";
                 if (!w.complOf.empty())
-                    for (int kk = w.k1; kk <= w.k2; ++kk)
+                    for (int kk = ka; kk <= w.k2At[s]; ++kk)
                         cl << " '" << w.name << "' " << w.i << " " << w.j << " " << kk << " " << kk << " " << w.complnum(kk) << " /\n";
+            }
+            if (w.firstStep == s) {
                 if (w.msw) {
                     sg << "WELSEGS\n '" << w.name << "' 2000 0 1* 'INC' 'HFA' /\n";
                     for (int kk = w.k1; kk <= w.k2; ++kk) {
@@ -329,7 +447,8 @@ Case makeCase(vh::Rng& rng, const std::vector<std::string>& keys, bool thorough,
         for (const auto& g : c.groups)
             if ((s == 0 && g.gefac[0] != 1.0) || (s > 0 && g.gefac[s] != g.gefac[s-1]))
                 gef << " '" << g.name << "' " << num(g.gefac[s]) << " /\n";
-        if (!ws.str().empty()) d << "WELSPECS\n" << ws.str() << "/\nCOMPDAT\n" << cd.str() << "/\n";
+        if (!ws.str().empty()) d << "WELSPECS\n" << ws.str() << "/\n";
+        if (!cd.str().empty()) d << "COMPDAT\n" << cd.str() << "/\n";
         if (!cl.str().empty()) d << "COMPLUMP\n" << cl.str() << "/\n";
         d << sg.str();
         if (!hist.str().empty()) d << "WCONHIST\n" << hist.str() << "/\n";
@@ -393,12 +512,13 @@ data::Wells makeWellData(vh::Rng& rng, const Case& c, int simStep, vh::Sink* sin
             // one) or independent numbers; sometimes a connection is missing, sometimes there is an extra one
             const bool split = rng.coin(1, 2);
             if (sink) sink->count(split ? "conn.split_of_well_rates" : "conn.independent");
-            const int nc = w.k2 - w.k1 + 1;
+            const int k2now = w.k2At[std::min<int>(simStep, static_cast<int>(w.k2At.size()) - 1)];   // the connections the schedule has at this step
+            const int nc = k2now - w.k1 + 1;
             std::vector<double> frac(nc);
             { double t = 0; for (auto& f : frac) { f = 0.05 + rng.unit(); t += f; } for (auto& f : frac) f /= t; }
             const bool dropOne = !split && rng.coin(1, 6);
             const int dropK = w.k1 + rng.range(0, nc - 1);
-            for (int k = w.k1; k <= w.k2; ++k) {
+            for (int k = w.k1; k <= k2now; ++k) {
                 if (dropOne && k == dropK) { if (sink) sink->count("conn.missing_in_results"); continue; }
                 data::Connection cn;
                 cn.index = static_cast<std::size_t>(w.gidx(k));
@@ -680,6 +800,8 @@ int runCorr(uint64_t seed, bool thorough, const std::string& outdir) {
         sink.count("case.wells", c.wells.size());
         int maxDepth = 0; for (auto& g : c.groups) maxDepth = std::max(maxDepth, g.depth);
         sink.count("case.depth." + std::to_string(maxDepth));
+        sink.count("case.report_steps." + std::to_string(c.nsteps));
+        for (const auto& kv : c.hist) sink.count("history." + kv.first, kv.second);
         out::Summary writer(R.cfg, R.es, R.es.getInputGrid(), R.sched, outdir + "/CASE");
         SummaryState st(TimeService::from_time_t(R.sched.getStartTime()), R.es.runspec().udqParams().undefinedValue());
         for (const auto& ev : makeEvals(rng, c, R)) {
@@ -711,6 +833,8 @@ int runCorr(uint64_t seed, bool thorough, const std::string& outdir) {
                 sink.count("time.ops");
             }
             sink.count(dt == 0.0 ? "eval.dt_zero" : "eval.dt_pos");
+            if (std::count(c.quietRegroup.begin(), c.quietRegroup.end(), simStep)) sink.count("history.eval_in_step_with_only_a_GRUPTREE_reparenting");
+            if (std::count(c.quietMove.begin(), c.quietMove.end(), simStep)) sink.count("history.eval_in_step_with_only_moved_wells");
             // parent pointers and children lists of the real Schedule describe one tree
             sink.emit("sumfuns.tree " + state.substr(0, state.find(" W ")), "ok");
             for (const auto& n : nodes) {
@@ -832,7 +956,7 @@ int runProp(uint64_t seed, bool thorough, const std::string& outdir) {
     auto chk = [&](bool ok, const std::string& key, const std::string& detail) {
         if (ok) log.ok(); else { log.ok(); log.fail(key, detail); }
     };
-    std::map<std::string, long> ratioStats;
+    std::map<std::string, long> ratioStats, histStats;
     auto g17 = [](double v) { char b[40]; std::snprintf(b, sizeof b, "%.17g", v); return std::string(b); };
     // every ratio vector of one node from the constituents reported in the same SummaryState
     auto ratios = [&](char cat, const UnitConst& uc, const std::string& units, const std::function<bool(const std::string&)>& has,
@@ -861,6 +985,9 @@ int runProp(uint64_t seed, bool thorough, const std::string& outdir) {
         try { Rp = std::make_unique<Real>(c.deck, parser); }
         catch (const std::exception& e) { std::cerr << "generated deck rejected: " << e.what() << "\n" << c.deck << std::endl; return 3; }
         Real& R = *Rp;
+        if (std::getenv("C09_DUMP_DECKS")) { std::ofstream df(outdir + "/case" + std::to_string(ci) + ".DATA"); df << c.deck; }   // to look at a failing input
+        for (const auto& kv : c.hist) histStats["generated." + kv.first] += kv.second;
+        ++histStats["generated.report_steps." + std::to_string(c.nsteps)];
         const UnitConst uc = unitConst(c.units);
         const double pf = c.units == "METRIC" ? 1e-5 : (c.units == "FIELD" ? 1.0 / 6894.757293168361 : 1.0 / 101325.0);
         out::Summary writer(R.cfg, R.es, R.es.getInputGrid(), R.sched, outdir + "/PCASE");
@@ -902,7 +1029,11 @@ int runProp(uint64_t seed, bool thorough, const std::string& outdir) {
             const std::string at = tag + "/rs" + std::to_string(ev.reportStep);
 
             // full efficiency factor of a well / of a group (own gefac and everything above), from the generated spec
-            auto groupUp = [&](int g) { double f = 1.0; for (int p = g; p >= 0; p = c.groups[p].parent) f *= c.groups[p].gefac[s]; return f; };
+            // the group tree, the wells' groups and the connections of THIS sim step (the generated history changes them)
+            const Tree T = treeAt(c, s);
+            auto groupUp = [&](int g) { double f = 1.0; for (int p = g; p >= 0; p = T.parent[p]) f *= c.groups[p].gefac[s]; return f; };
+            if (std::count(c.quietRegroup.begin(), c.quietRegroup.end(), s)) ++histStats["eval_in_step_with_only_a_GRUPTREE_reparenting"];
+            if (std::count(c.quietMove.begin(), c.quietMove.end(), s)) ++histStats["eval_in_step_with_only_moved_wells"];
             auto known = [&](const WellSpec& w) { return w.firstStep <= s; };
             auto flowing = [&](const WellSpec& w) {
                 auto it = wd.find(w.name);
@@ -935,7 +1066,7 @@ int runProp(uint64_t seed, bool thorough, const std::string& outdir) {
                 if (!known(w)) continue;
                 const bool fl = flowing(w);
                 auto it = wd.find(w.name);
-                const double full = w.wefac[s] * groupUp(w.group);
+                const double full = w.wefac[s] * groupUp(w.groupAt[s]);
                 auto q = [&](rt p) { return (fl && it->second.rates.has(p)) ? it->second.rates.get(p) : 0.0; };
                 const std::string a = at + "/" + w.name;
                 // definitions in deck units straight from the simulator results
@@ -1013,7 +1144,7 @@ int runProp(uint64_t seed, bool thorough, const std::string& outdir) {
                 if (!known(w)) continue;
                 const bool fl = flowing(w);
                 auto it = wd.find(w.name);
-                const double full = w.wefac[s] * groupUp(w.group);
+                const double full = w.wefac[s] * groupUp(w.groupAt[s]);
                 const bool isProd = fl && it->second.current_control.isProducer;
                 const bool isInj = fl && !it->second.current_control.isProducer;
                 const std::string a = at + "/" + w.name;
@@ -1025,7 +1156,7 @@ int runProp(uint64_t seed, bool thorough, const std::string& outdir) {
                 std::map<int, std::map<std::string, double>> complSum;
                 bool consistent = isProd && w.producer;
                 std::map<rt, double> connTotal;
-                for (int k = w.k1; k <= w.k2; ++k) {
+                for (int k = w.k1; k <= w.k2At[s]; ++k) {
                     const int num = w.gidx(k) + 1;
                     const data::Connection* cn = conn(k);
                     const std::string ak = a + "/k" + std::to_string(k);
@@ -1081,7 +1212,7 @@ int runProp(uint64_t seed, bool thorough, const std::string& outdir) {
                         chk(std::fabs(st.get(key) - cs.second.at(lk.ck)) <= 1e-12 * cs.second.at(std::string("abs.") + lk.ck), std::string("completion.sum_of_connections.") + lk.l,
                             a + "/compl" + std::to_string(cs.first) + " " + lk.l + "=" + g17(st.get(key)) + " but sum of " + lk.ck + " = " + g17(cs.second.at(lk.ck)));
                         ++lvlStats["completion.sum_of_connections"];
-                        for (int k = w.k1; k <= w.k2; ++k)
+                        for (int k = w.k1; k <= w.k2At[s]; ++k)
                             if (w.complnum(k) == cs.first) {
                                 const std::string ck = std::string(lk.cl) + ":" + w.name + ":" + std::to_string(w.gidx(k) + 1);
                                 if (st.has(ck)) chk(st.get(ck) == st.get(key), std::string("completion.connection_view.") + lk.cl, a + " " + ck);
@@ -1100,7 +1231,7 @@ int runProp(uint64_t seed, bool thorough, const std::string& outdir) {
                     for (const WK& wk : { WK{"WOPR", "COPR", rt::oil}, WK{"WWPR", "CWPR", rt::wat}, WK{"WGPR", "CGPR", rt::gas} }) {
                         const double qw = it->second.rates.has(wk.p) ? it->second.rates.get(wk.p) : 0.0;
                         if (!closeRel(qw, connTotal[wk.p], 1e-13) || qw > 0) continue;
-                        double sum = 0.0; for (int k = w.k1; k <= w.k2; ++k) sum += CV(w.name, wk.ck, w.gidx(k) + 1);
+                        double sum = 0.0; for (int k = w.k1; k <= w.k2At[s]; ++k) sum += CV(w.name, wk.ck, w.gidx(k) + 1);
                         if (!st.has_conn_var(w.name, wk.ck, w.gidx(w.k1) + 1)) continue;
                         chk(close(W(w.name, wk.wk), sum, 1e-12, 0.0), std::string("well.sum_of_connections.") + wk.wk, a + " " + wk.wk + "=" + g17(W(w.name, wk.wk)) + " sum " + g17(sum));
                         ++lvlStats["well.sum_of_connections"];
@@ -1151,7 +1282,7 @@ int runProp(uint64_t seed, bool thorough, const std::string& outdir) {
                                 for (const auto& cn : it->second.connections) if (cn.rates.has(rk.p) && cn.rates.get(rk.p) != 0.0) { ++lvlStats["region.shut_well_with_connection_rates"]; break; }
                                 continue;
                             }
-                            const double f = known(w) ? w.wefac[s] * groupUp(w.group) : 1.0;
+                            const double f = known(w) ? w.wefac[s] * groupUp(w.groupAt[s]) : 1.0;
                             for (const auto& cn : it->second.connections) {
                                 bool mine = false;
                                 for (int k = w.k1; k <= w.k2; ++k) mine = mine || (cn.index == static_cast<std::size_t>(w.gidx(k)) && fipnumOf(w.gidx(k)) == r);
@@ -1169,7 +1300,7 @@ int runProp(uint64_t seed, bool thorough, const std::string& outdir) {
                             for (const auto& w : c.wells) {
                                 auto it = wd.find(w.name);
                                 if (it == wd.end() || it->second.dynamicStatus == Well::Status::SHUT) continue;
-                                for (int k = w.k1; k <= w.k2; ++k) anyFlowing = anyFlowing || fipnumOf(w.gidx(k)) == r;
+                                for (int k = w.k1; k <= w.k2At[std::min<int>(s, c.nsteps - 1)]; ++k) anyFlowing = anyFlowing || fipnumOf(w.gidx(k)) == r;
                             }
                             if (!anyFlowing) {
                                 chk(RV("FIPNUM", rk.key, r) == 0.0, std::string("region.shut_zero.") + rk.key,
@@ -1210,10 +1341,53 @@ int runProp(uint64_t seed, bool thorough, const std::string& outdir) {
                                       GW{"GOIR", "WOIR"}, GW{"GWIR", "WWIR"}, GW{"GGIR", "WGIR"}, GW{"GVIR", "WVIR"},
                                       GW{"GOPRH", "WOPRH"}, GW{"GWPRH", "WWPRH"}, GW{"GGPRH", "WGPRH"}, GW{"GWIRH", "WWIRH"}, GW{"GGIRH", "WGIRH"} }) {
                     double sum = 0.0;
-                    for (int k : g.kids) sum += c.groups[k].gefac[s] * G(c.groups[k].name, gw.gk);
-                    for (int w : g.wells) if (known(c.wells[w])) sum += c.wells[w].wefac[s] * W(c.wells[w].name, gw.wk);
+                    for (int k : T.kids[gi]) sum += c.groups[k].gefac[s] * G(c.groups[k].name, gw.gk);
+                    for (int w : T.wells[gi]) sum += c.wells[w].wefac[s] * W(c.wells[w].name, gw.wk);
                     chk(close(G(g.name, gw.gk), sum), std::string("hierarchy.") + gw.gk,
                         a + " got " + std::to_string(G(g.name, gw.gk)) + " expected " + std::to_string(sum));
+                }
+                // the same from scratch: efficiency-weighted sum over ALL wells below the group in the tree of this step
+                // (factor = WEFAC times the GEFACs of the groups between the well and this group, the group's own excluded)
+                std::vector<std::pair<int, double>> desc;
+                {
+                    std::function<void(int, double)> walk = [&](int gg, double f) {
+                        for (int w : T.wells[gg]) desc.emplace_back(w, f * c.wells[w].wefac[s]);
+                        for (int k : T.kids[gg]) walk(k, f * c.groups[k].gefac[s]);
+                    };
+                    walk(static_cast<int>(gi), 1.0);
+                }
+                for (const GW& gw : { GW{"GOPR", "WOPR"}, GW{"GWPR", "WWPR"}, GW{"GGPR", "WGPR"}, GW{"GVPR", "WVPR"}, GW{"GLPR", "WLPR"},
+                                      GW{"GOIR", "WOIR"}, GW{"GWIR", "WWIR"}, GW{"GGIR", "WGIR"}, GW{"GVIR", "WVIR"},
+                                      GW{"GOPRH", "WOPRH"}, GW{"GWPRH", "WWPRH"}, GW{"GGPRH", "WGPRH"}, GW{"GWIRH", "WWIRH"}, GW{"GGIRH", "WGIRH"} }) {
+                    if (!st.has_group_var(g.name, gw.gk)) continue;
+                    double sum = 0.0; std::string terms;
+                    for (const auto& wf : desc) {
+                        sum += wf.second * W(c.wells[wf.first].name, gw.wk);
+                        if (terms.size() < 400) terms += " " + c.wells[wf.first].name + ":" + g17(wf.second) + "*" + g17(W(c.wells[wf.first].name, gw.wk));
+                    }
+                    chk(close(G(g.name, gw.gk), sum), std::string("hierarchy.descendants.") + gw.gk,
+                        a + " " + gw.gk + "=" + g17(G(g.name, gw.gk)) + " but the efficiency-weighted sum over the wells below " + g.name +
+                        " in the group tree of sim step " + std::to_string(s) + " is " + g17(sum) + " =" + (terms.empty() ? " (no wells)" : terms));
+                    ++histStats["hierarchy.descendants.checked"];
+                    if (c.groups[gi].parentAt[s] != c.groups[gi].parentAt[0] || !T.kids[gi].empty()) ++histStats["hierarchy.descendants.inner_or_moved_group"];
+                }
+                // totals: the increment of a group total is the sum of the increments of the well totals below it
+                // (both are rate x full efficiency factor x step) — GOPT stays consistent with the WOPTs whatever the tree did
+                for (const GW& gw : { GW{"GOPT", "WOPT"}, GW{"GWPT", "WWPT"}, GW{"GGPT", "WGPT"}, GW{"GVPT", "WVPT"}, GW{"GLPT", "WLPT"},
+                                      GW{"GOIT", "WOIT"}, GW{"GWIT", "WWIT"}, GW{"GGIT", "WGIT"}, GW{"GVIT", "WVIT"},
+                                      GW{"GOPTH", "WOPTH"}, GW{"GWPTH", "WWPTH"}, GW{"GGPTH", "WGPTH"}, GW{"GWITH", "WWITH"}, GW{"GGITH", "WGITH"} }) {
+                    if (!st.has_group_var(g.name, gw.gk)) continue;
+                    const double dG = G(g.name, gw.gk) - before[g.name + "/" + gw.gk];
+                    double dW = 0.0, mag = std::fabs(G(g.name, gw.gk)), inc = std::fabs(dG);
+                    for (const auto& wf : desc) {
+                        const auto& wn = c.wells[wf.first].name;
+                        const double x = W(wn, gw.wk) - before[wn + "/" + gw.wk];
+                        dW += x; inc += std::fabs(x); mag += std::fabs(W(wn, gw.wk));
+                    }
+                    chk(std::fabs(dG - dW) <= 1e-9 * inc + 1e-13 * mag + 1e-11, std::string("consistency.") + gw.gk,
+                        a + " " + gw.gk + " grew by " + g17(dG) + " but the " + gw.wk + " of the wells below " + g.name + " (tree of sim step " +
+                        std::to_string(s) + ") grew by " + g17(dW));
+                    ++histStats["consistency.group_total_vs_well_totals"];
                 }
                 chk(close(G(g.name, "GLPR"), G(g.name, "GOPR") + G(g.name, "GWPR"), 1e-12), "derived.GLPR", a);
                 {
@@ -1242,8 +1416,22 @@ int runProp(uint64_t seed, bool thorough, const std::string& outdir) {
                                       FG{"FOIR", "GOIR"}, FG{"FWIR", "GWIR"}, FG{"FGIR", "GGIR"}, FG{"FVIR", "GVIR"},
                                       FG{"FOPRH", "GOPRH"}, FG{"FWPRH", "GWPRH"}, FG{"FGPRH", "GGPRH"}, FG{"FWIRH", "GWIRH"}, FG{"FGIRH", "GGIRH"} }) {
                     double sum = 0.0;
-                    for (const auto& g : c.groups) if (g.parent < 0) sum += g.gefac[s] * G(g.name, fg.gk);
+                    for (size_t gi = 0; gi < c.groups.size(); ++gi) if (T.parent[gi] < 0) sum += c.groups[gi].gefac[s] * G(c.groups[gi].name, fg.gk);
                     chk(close(F(fg.fk), sum), std::string("hierarchy.") + fg.fk, at + " got " + std::to_string(F(fg.fk)) + " expected " + std::to_string(sum));
+                }
+                // field totals: increment = sum of the increments of all well totals = sum over the top-level groups
+                for (const auto& fw : { std::array<const char*, 3>{"FOPT", "GOPT", "WOPT"}, {"FWPT", "GWPT", "WWPT"}, {"FGPT", "GGPT", "WGPT"}, {"FVPT", "GVPT", "WVPT"},
+                                        {"FOIT", "GOIT", "WOIT"}, {"FWIT", "GWIT", "WWIT"}, {"FGIT", "GGIT", "WGIT"}, {"FOPTH", "GOPTH", "WOPTH"}, {"FWITH", "GWITH", "WWITH"} }) {
+                    if (!st.has(fw[0])) continue;
+                    const double dF = F(fw[0]) - before[std::string("F/") + fw[0]];
+                    double dW = 0.0, dG = 0.0, mag = std::fabs(F(fw[0])), inc = std::fabs(dF);
+                    for (const auto& w : c.wells) if (known(w)) { const double x = W(w.name, fw[2]) - before[w.name + "/" + fw[2]]; dW += x; inc += std::fabs(x); mag += std::fabs(W(w.name, fw[2])); }
+                    for (size_t gi = 0; gi < c.groups.size(); ++gi) if (T.parent[gi] < 0) { dG += G(c.groups[gi].name, fw[1]) - before[c.groups[gi].name + "/" + fw[1]]; mag += std::fabs(G(c.groups[gi].name, fw[1])); }
+                    chk(std::fabs(dF - dW) <= 1e-9 * inc + 1e-13 * mag + 1e-11, std::string("consistency.") + fw[0],
+                        at + " " + fw[0] + " grew by " + g17(dF) + " but the " + fw[2] + " of all wells grew by " + g17(dW));
+                    chk(std::fabs(dF - dG) <= 1e-9 * inc + 1e-13 * mag + 1e-11, std::string("consistency.") + fw[0] + ".groups",
+                        at + " " + fw[0] + " grew by " + g17(dF) + " but the " + fw[1] + " of the groups directly below FIELD (tree of sim step " + std::to_string(s) + ") grew by " + g17(dG));
+                    ++histStats["consistency.field_total_vs_well_and_group_totals"];
                 }
                 chk(close(F("FLPR"), F("FOPR") + F("FWPR"), 1e-12), "derived.FLPR", at);
                 const double den = F("FWPR") + F("FOPR");
@@ -1286,6 +1474,8 @@ int runProp(uint64_t seed, bool thorough, const std::string& outdir) {
     ps << "{\n  \"checked\": " << log.checked << ",\n  \"failed\": " << log.failed << ",\n  \"cases\": " << ncases
        << ",\n  \"ratio_checks\": {";
     { bool first = true; for (const auto& kv : ratioStats) { ps << (first ? "" : ", ") << "\"" << kv.first << "\": " << kv.second; first = false; } }
+    ps << "},\n  \"history_checks\": {";
+    { bool first = true; for (const auto& kv : histStats) { ps << (first ? "" : ", ") << "\"" << kv.first << "\": " << kv.second; first = false; } }
     ps << "},\n  \"level_checks\": {";
     { bool first = true; for (const auto& kv : lvlStats) { ps << (first ? "" : ", ") << "\"" << kv.first << "\": " << kv.second; first = false; } }
     ps << "}"
